@@ -775,6 +775,11 @@ theorem output_blocks_invariant {cap : Nat} (hc : 0 < cap) (nruns nout : Nat) (h
       (∀ b ∈ (outputBlocks cap nruns nout).dropLast, b = cap) :=
   outputBlocks_ok hc nruns nout h0
 
+/-- the same for `PRead` of the file handed over by `StealCompleted` (as lmplz reads it) -/
+theorem pread_blocks_invariant {cap : Nat} (hc : 0 < cap) (n : Nat) :
+    (preadBlocks cap n).sum = n ∧ (∀ b ∈ preadBlocks cap n, b ≤ cap) ∧ (∀ b ∈ (preadBlocks cap n).dropLast, b = cap) :=
+  preadBlocks_ok hc n
+
 example : outputBlocks 4 1 8 = [4, 4] ∧ outputBlocks 4 3 8 = [4, 4, 0] ∧ outputBlocks 4 3 9 = [4, 4, 1] ∧
     outputBlocks 4 0 0 = [] := by decide
 
